@@ -131,6 +131,7 @@ class Case:
         self.fired = 0
         self.log = []            # mutation log for the cold replay
         self.orphans = []        # (dict, snapshot) released by the lookup with no other owner
+        self.reentrant_results = []   # what lookups made from inside the callback returned
         self.audited = 0
         mod = util.fresh_module()
         case = self
@@ -371,11 +372,13 @@ class Case:
         elif a == 'rebase':
             self.release_audit(lambda: self.mutate('reg', 'bases', ['other']))
         elif a == 'reenter_same':
-            self.call_entry(self.reg, self.entry, hostile=False)
+            self.reentrant_results.append(self.call_entry(self.reg, self.entry, hostile=False))
         elif a == 'reenter_other':
-            self.reg.lookupAll([self.IR0], self.IP)
-            self.reg.subscriptions([self.IR], self.IP)
-            self.reg.lookup([self.IR0], self.IP, 'other-name')
+            self.reentrant_results.append(self.reg.lookupAll([self.IR0], self.IP))
+            self.reentrant_results.append(self.reg.subscriptions([self.IR], self.IP))
+            self.reentrant_results.append(self.reg.lookup([self.IR0], self.IP, 'other-name'))
+            self.reentrant_results.append(self.reg.lookup([self.IR], self.IP, 'n'))
+            self.reentrant_results.append(self.reg.lookup1(self.IR, self.IP, 'n'))
         elif a == 'raise':
             raise Boom(self.point)
         elif a == 'gc':
@@ -473,6 +476,23 @@ class Case:
                 if dead:
                     ctx.violation('lookup-returned-a-finalized-object', dict(where, warm=self.warm, value=repr(x)),
                                   mechanism='borrowed_cache_pointer', abort=False)
+        # ... and so must what a lookup made *from inside the callback* got (a destructor that runs while the caches are
+        # being dropped must not be served from the dictionary that is going away)
+        def _flat(x):
+            if isinstance(x, (list, tuple)):
+                for y in x:
+                    yield from _flat(y)
+            else:
+                yield x
+        for x in _flat(self.reentrant_results):
+            ctx.ev()
+            try:
+                dead = isinstance(x, Val) and x.tag in FINALIZED
+            except Exception:
+                dead = True
+            if dead:
+                ctx.violation('reentrant-lookup-returned-a-finalized-object', dict(where, warm=self.warm, value=repr(x)), abort=False)
+        del self.reentrant_results[:]
         r2 = self.observe(lambda: self.call_entry(self.reg, self.entry, hostile=False))
         after = self.observe(lambda: self.call_entry(self.cold(), self.entry, hostile=False))
         ctx.ev(3)
